@@ -168,7 +168,7 @@ pub fn replay(case: &Case) -> Vec<Violation> {
 
 pub const C01: ScenDef = ScenDef {
     id: "C01",
-    profile: |_t| Profile::default(),
+    profile: |_t| Profile { keepalive: vec![0, 0, 1, 7, 30, 600], w_advance: 3, w_fill: 1, ..Profile::default() },
     nontrivial: |s, _| (s.partial_writes > 0 || s.cancels > 0 || s.faults > 0) && s.out_packets >= 3,
     rule: "proptest-generated (Config, Vec<ConnScript>) histories: all operations, 1-byte..whole write acceptance, cancellation of cancel-safe ops at generated await points, transport faults, inbound traffic needing acks, resumed/fresh reconnects; every transport's accepted bytes are parsed by the strict reference decoder and each packet must be one the model expects. Non-trivial = at least one partial write, cancellation or fault AND at least two packets after CONNECT; distinct = distinct case value (hash).",
     cases: (48_000, 1_600_000),
@@ -236,6 +236,7 @@ pub const C04: ScenDef = ScenDef {
         w_sub: 1,
         w_unsub: 0,
         w_deliver: 16,
+        w_fill: 6,
         w_redeliver: 5,
         w_pubrel: 6,
         w_poll: 10,
@@ -305,6 +306,9 @@ pub const C11: ScenDef = ScenDef {
         w_eof: 3,
         w_server_disconnect: 3,
         w_disconnect: 3,
+        // keep-alive timeouts are one of the listed ways to die: unanswered PINGREQ + 5 s
+        keepalive: vec![0, 1, 3, 20],
+        w_advance: 5,
         ..Profile::default()
     },
     nontrivial: |s, _| s.dead_tail_ops > 0,
